@@ -282,6 +282,49 @@ def parallel_map(fn, items, procs=16, chunk=500):
         return pool.map(fn, items, chunksize=chunk)
 
 
+def from_library(exc):
+    """True when the exception was raised inside the library under test (innermost frame under the
+    repository): then it is an observation about menpo, not a harness failure."""
+    repo = os.path.realpath(os.environ.get("MENPO_REPO", "/repo"))
+    tb = exc.__traceback__
+    last = None
+    while tb is not None:
+        last = tb
+        tb = tb.tb_next
+    if last is None:
+        return False
+    fn = os.path.realpath(last.tb_frame.f_code.co_filename)
+    if fn.startswith(repo + os.sep):
+        return True
+    # numpy / scipy raising on behalf of library code: look for the deepest non-site-packages frame
+    tb = exc.__traceback__
+    deepest = None
+    while tb is not None:
+        f = os.path.realpath(tb.tb_frame.f_code.co_filename)
+        if "site-packages" not in f and "/lib/python" not in f:
+            deepest = f
+        tb = tb.tb_next
+    return bool(deepest and deepest.startswith(repo + os.sep))
+
+
+class _Guarded:
+    """Picklable wrapper: an exception escaping from the library during a case is reported as a
+    disagreement of that case; an exception of the harness itself stays a machinery error."""
+
+    def __init__(self, fn):
+        self.fn = fn
+
+    def __call__(self, o):
+        try:
+            return self.fn(o)
+        except Exception as e:
+            if from_library(e):
+                tb = traceback.extract_tb(e.__traceback__)[-1]
+                return [("unexpected %s raised by menpo at %s:%d" % (type(e).__name__, os.path.basename(tb.filename), tb.lineno),
+                         {"message": str(e)[:300]}, None)]
+            raise
+
+
 def run_cases(chk, label, module, cfg, scratch, run_case, env=None, key=None, sample_n=2, workers=8, what=None,
               parallel=False, timeout=3600):
     """One-shot pattern: TLC enumerates cases (one per initial state) with the specification's
@@ -292,7 +335,8 @@ def run_cases(chk, label, module, cfg, scratch, run_case, env=None, key=None, sa
     cases = tlc.read_emitted(out)
     if not cases:
         raise tlc.MachineryError("TLC emitted no case (%s/%s)" % (module, cfg))
-    results = parallel_map(run_case, cases, chunk=50) if parallel else [run_case(o) for o in cases]
+    g = _Guarded(run_case)
+    results = parallel_map(g, cases, chunk=50) if parallel else [g(o) for o in cases]
     for i, (o, bads) in enumerate(zip(cases, results)):
         c = o.get("case", o)
         chk.case((label, json.dumps(c, sort_keys=True)) if key is None else (label, key(o)))
